@@ -421,6 +421,13 @@ func checkMain(args []string) {
 		for _, n := range clauseNames {
 			have[n] = true
 		}
+		for _, r := range results {
+			if r.VC != nil {
+				for n := range r.VC.trivial {
+					have[reSiteOrd.ReplaceAllString(n, "@")] = true
+				}
+			}
+		}
 		for _, w := range want {
 			w = reSiteOrd.ReplaceAllString(w, "@")
 			if !have[w] {
